@@ -1,4 +1,170 @@
-(* Props/C17.v — property theorems only. Each is closed by `exact <lemma>`. *)
-From Coq Require Import List String Bool.
-From Mimium Require Import Modules.Model.
+(* Props/C17.v — module privacy and name resolution: property theorems only, each closed by `exact <lemma>`.
+
+   Vocabulary (Modules/Spec.v): fn_decls prog = the functions the module tree declares (module path d_mod, name,
+   pub flag, body); private_fn prog M n = n is a non-pub function member of module M <> []; inside M P = module path
+   P is M or a descendant of M; subexpr_at e q = the sub-expression at position q; chain_stmts e' = the statements of
+   the converted let-chain; convert_program = program.rs flattening followed by convert_qualified_names; its second
+   component is the list of PrivateMemberAccess errors (empty = the pass accepts the program).
+   Restrictions: unique_fns (no two functions with the same mangled name), no_mod_let (no `let` inside a module,
+   findings F8/F17b), pub_use_safe (no `use` re-exports or overwrites a private member, finding F9), src_prog (binders
+   are plain identifiers, qualified paths have >= 2 segments — true of parsed source). *)
+From Coq Require Import List String Bool Arith NArith.
+From Mimium Require Import Modules.Model Modules.Spec Modules.Resolve Modules.Program Modules.NoPubUse Modules.Mangle Modules.Witness.
 Import ListNotations.
+
+(* No route to a private member: if the resolution pass accepts the program, then every reference (bare or
+   qualified, whatever it goes through: relative lookup, `use` alias, multi-import, wildcard, re-export) written in
+   the body of a declared function is rewritten to a symbol that is not a private function member of a module M,
+   unless the referencing function itself lives inside M. *)
+Theorem C17_no_private_route : forall builtins prog e',
+    unique_fns prog = true -> no_mod_let prog = true -> pub_use_safe prog = true -> src_prog prog = true ->
+    convert_program builtins prog = (e', []) ->
+    forall d, In d (fn_decls prog) ->
+    exists body',
+      In (SLetRec (d_path d) (ELam (map (fun p => [p]) (d_params d)) body')) (chain_stmts e')
+      /\ forall q r, subexpr_at (d_body d) q = Some r -> is_ref r ->
+           exists s, subexpr_at body' q = Some (EVar s)
+                     /\ forall M n, s = M ++ [n] -> private_fn prog M n -> inside M (d_mod d).
+Proof. exact no_private_route_fn. Qed.
+
+(* the same for the initialisers of `let` statements (all at top level under no_mod_let): never a private member *)
+Theorem C17_no_private_route_let : forall builtins prog e',
+    unique_fns prog = true -> no_mod_let prog = true -> pub_use_safe prog = true -> src_prog prog = true ->
+    convert_program builtins prog = (e', []) ->
+    forall P n b, In (P, n, b) (let_decls prog) ->
+    exists body',
+      In (SLet [[n]] body') (chain_stmts e')
+      /\ forall q r, subexpr_at b q = Some r -> is_ref r ->
+           exists s, subexpr_at body' q = Some (EVar s) /\ forall M m, s = M ++ [m] -> ~ private_fn prog M m.
+Proof. exact no_private_route_let. Qed.
+
+(* the core fact, for an arbitrary position: whatever the current module context cmc and scope stack are, a bare
+   name or qualified path that convert_var / convert_qualified_var resolve without pushing an error to a private
+   member of M is being resolved inside M *)
+Theorem C17_no_private_route_any_context : forall prog known cmc locals r s M n,
+    unique_fns prog = true -> pub_use_safe prog = true ->
+    match r with
+    | EVar x => List.length x = 1 /\ convert_var (mi_of prog) known cmc locals x = (s, [])
+    | EQVar p => 2 <= List.length p /\ convert_qualified_var (mi_of prog) known cmc p = (s, [])
+    | _ => False
+    end ->
+    s = M ++ [n] -> private_fn prog M n -> inside M cmc.
+Proof. exact ref_private_inside. Qed.
+
+(* a program without any `pub use` satisfies pub_use_safe *)
+Theorem C17_no_pub_use_is_safe : forall prog, no_pub_use prog = true -> pub_use_safe prog = true.
+Proof. exact no_pub_use_safe. Qed.
+
+(* Unique denotation: a qualified path written in a function of module P is rewritten to (the alias-chain image
+   of) the symbol its path denotes — the declared function of that absolute path if there is one, else the declared
+   function of that path relative to the current module, else the path itself (left for the type checker to
+   report) — where the current module is P, or none below a local `letrec`. *)
+Theorem C17_unique : forall builtins prog e' errs,
+    no_mod_let prog = true -> src_prog prog = true -> (forall b, In b builtins -> List.length b = 1) ->
+    convert_program builtins prog = (e', errs) ->
+    forall d, In d (fn_decls prog) ->
+    exists body',
+      In (SLetRec (d_path d) (ELam (map (fun p => [p]) (d_params d)) body')) (chain_stmts e')
+      /\ forall q segs, subexpr_at (d_body d) q = Some (EQVar segs) ->
+           exists cmc t,
+             (cmc = d_mod d \/ cmc = [])
+             /\ denoted (fun x => exists d', In d' (fn_decls prog) /\ d_path d' = x) cmc segs t
+             /\ subexpr_at body' q = Some (EVar (resolve_alias_chain (mi_of prog) t)).
+Proof. exact unique_fn. Qed.
+
+(* the mangled name determines the path: `a$b$c` is injective on '$'-free identifiers *)
+Theorem C17_mangle_injective : forall p q,
+    Forall dollar_free p -> Forall dollar_free q -> p <> [] -> q <> [] -> mangle p = mangle q -> p = q.
+Proof. exact mangle_inj. Qed.
+
+(* Local bindings shadow: a bare name in the scope of a `let` / `letrec` / lambda binder of that name, or of a
+   parameter of the function, is never rewritten (whatever aliases and wildcard imports exist). *)
+Theorem C17_local_shadows : forall builtins prog e' errs,
+    no_mod_let prog = true -> src_prog prog = true ->
+    convert_program builtins prog = (e', errs) ->
+    forall d, In d (fn_decls prog) ->
+    exists body',
+      In (SLetRec (d_path d) (ELam (map (fun p => [p]) (d_params d)) body')) (chain_stmts e')
+      /\ forall q x, subexpr_at (d_body d) q = Some (EVar x) ->
+                     In x (binders_at (d_body d) q) \/ In x (map (fun p => [p]) (d_params d)) ->
+                     subexpr_at body' q = Some (EVar x).
+Proof. exact local_shadows_fn. Qed.
+
+Theorem C17_local_shadows_any_context : forall mi known cmc locals name,
+    is_locally_bound locals name = true -> convert_var mi known cmc locals name = (name, []).
+Proof. exact convert_var_local. Qed.
+
+(* the fuel of the model's alias-chain loop is never exhausted (more fuel, same answer) *)
+Theorem C17_alias_chain_fuel : forall mi s extra,
+    alias_chain_go (S (List.length (use_alias_map mi)) + extra) (use_alias_map mi) [] s = resolve_alias_chain mi s.
+Proof. exact alias_chain_fuel. Qed.
+
+(* ---- refuted routes (each restriction above is necessary) --------------------------------------------------------- *)
+Local Open Scope string_scope.
+
+(* F8: a `let` member of module m is reachable by its bare name from a top-level function *)
+Theorem C17_let_member_refuted :
+  exists prog e',
+    unique_fns prog = true /\ pub_use_safe prog = true /\ src_prog prog = true
+    /\ convert_program [] prog = (e', [])
+    /\ In (["m"], "secret", EConst 42) (let_decls prog)
+    /\ In (SLetRec ["dsp"] (ELam [] (EVar ["secret"]))) (chain_stmts e')
+    /\ unbound [] e' = [] /\ run_dsp 10 e' = Some (VNum 42).
+Proof. exact f8_refuted. Qed.
+
+(* F9: `pub use m::hidden` inside m makes the private function m::hidden reachable from the top level *)
+Theorem C17_pub_use_refuted :
+  exists prog e',
+    unique_fns prog = true /\ no_mod_let prog = true /\ src_prog prog = true
+    /\ convert_program [] prog = (e', [])
+    /\ private_fn prog ["m"] "hidden"
+    /\ In (SLetRec ["dsp"] (ELam [] (EApp (EVar ["m"; "hidden"]) []))) (chain_stmts e')
+    /\ ~ inside ["m"] []
+    /\ unbound [] e' = [] /\ run_dsp 10 e' = Some (VNum 7).
+Proof. exact f9_refuted. Qed.
+
+(* F9, re-export from another module: `mod api { pub use o::p }` makes the private o::p reachable as api::p *)
+Theorem C17_reexport_refuted :
+  exists prog e',
+    unique_fns prog = true /\ no_mod_let prog = true /\ src_prog prog = true
+    /\ convert_program [] prog = (e', [])
+    /\ private_fn prog ["o"] "p"
+    /\ In (SLetRec ["dsp"] (ELam [] (EApp (EVar ["o"; "p"]) []))) (chain_stmts e')
+    /\ ~ inside ["o"] []
+    /\ unbound [] e' = [] /\ run_dsp 10 e' = Some (VNum 7).
+Proof. exact f9b_refuted. Qed.
+
+(* F17a: a non-pub nested module does not protect its members (all four restrictions hold) *)
+Theorem C17_private_module_refuted :
+  exists prog e',
+    unique_fns prog = true /\ no_mod_let prog = true /\ pub_use_safe prog = true /\ src_prog prog = true
+    /\ convert_program [] prog = (e', [])
+    /\ In (["outer"; "inner"], false) (mod_decls prog)
+    /\ In (SLetRec ["dsp"] (ELam [] (EApp (EVar ["outer"; "inner"; "secret"]) []))) (chain_stmts e')
+    /\ ~ inside ["outer"] []
+    /\ unbound [] e' = [] /\ run_dsp 10 e' = Some (VNum 5).
+Proof. exact f17a_refuted. Qed.
+
+(* F17b: the initialiser of a top-level `let` that follows a module `let` is resolved inside that module *)
+Theorem C17_let_context_refuted :
+  exists prog e',
+    unique_fns prog = true /\ pub_use_safe prog = true /\ src_prog prog = true
+    /\ convert_program [] prog = (e', [])
+    /\ private_fn prog ["m"] "hidden"
+    /\ In ([], "b", EApp (EVar ["hidden"]) []) (let_decls prog)
+    /\ In (SLet [["b"]] (EApp (EVar ["m"; "hidden"]) [])) (chain_stmts e')
+    /\ unbound [] e' = [] /\ run_dsp 10 e' = Some (VNum 7).
+Proof. exact f17b_refuted. Qed.
+
+(* ---- the hypotheses are satisfiable ------------------------------------------------------------------------------- *)
+Example C17_hypotheses_satisfiable :
+  unique_fns prog_ok = true /\ no_mod_let prog_ok = true /\ pub_use_safe prog_ok = true /\ src_prog prog_ok = true
+  /\ no_pub_use prog_ok = true
+  /\ private_fn prog_ok ["m"] "h"
+  /\ (exists e', convert_program [] prog_ok = (e', []) /\ unbound [] e' = [] /\ run_dsp 20 e' = Some (VNum 7)).
+Proof. exact ok_satisfiable. Qed.
+
+Example C17_private_access_rejected :
+  unique_fns prog_rejected = true /\ no_mod_let prog_rejected = true /\ pub_use_safe prog_rejected = true
+  /\ snd (convert_program [] prog_rejected) = [mkErr ["m"] "h"].
+Proof. exact rejected_example. Qed.
